@@ -111,6 +111,14 @@ Qed.
 Lemma Forall2_len {A B} (P : A -> B -> Prop) l l' : Forall2 P l l' -> length l = length l'.
 Proof. induction 1; cbn; congruence. Qed.
 
+Lemma Forall2_nth {A B} (P : A -> B -> Prop) l l' : Forall2 P l l' ->
+  forall j x y, nth_error l j = Some x -> nth_error l' j = Some y -> P x y.
+Proof.
+  induction 1; intros [|j] x0 y0 H1 H2; cbn in *; try discriminate.
+  - congruence.
+  - eauto.
+Qed.
+
 Lemma nth_error_in_range {A} (l : list A) j : (j < length l)%nat -> exists e, nth_error l j = Some e.
 Proof.
   intros H. destruct (nth_error l j) eqn:Hn; [eauto|]. apply nth_error_None in Hn. lia.
@@ -311,7 +319,7 @@ Section SimpleProofs.
     - rewrite Hf2. rewrite nth_error_app1 by (rewrite repeat_length; lia).
       apply nth_error_repeat. lia.
     - rewrite Hf1. rewrite nth_error_app2 by (unfold zlen in HI; lia).
-      apply nth_error_repeat. unfold zlen in HI; lia.
+      apply nth_error_repeat. unfold zlen in *; lia.
     - lia.
     - lia.
   Qed.
@@ -345,8 +353,8 @@ Section SimpleProofs.
     apply init_fields in Hs. destruct Hs as (He & Hst & _).
     pose proof (slice_lo_range (zlen (events s)) a (zlen_nonneg _)) as Hlo.
     pose proof (slice_hi_range (zlen (events s)) b (zlen_nonneg _)) as Hhi.
-    unfold Inv in *. rewrite He, zlen_clean, py_slice_zlen in HI'. unfold len, lo.
-    repeat split; try lia; exact He.
+    assert (HI2 := HI'). unfold Inv in HI, HI2. rewrite He, zlen_clean, py_slice_zlen in HI2.
+    unfold lo, len. split; [exact HI'|]. repeat split; try lia; exact He.
   Qed.
 
   (** ... and carries, at every one of its steps, the event the original had
@@ -368,9 +376,7 @@ Section SimpleProofs.
     destruct (nth_error_in_range (py_slice (events s) a b) j) as [e Hee]; [unfold zlen in Hj2; lia|].
     exists e', e. split; [exact He'|]. split; [congruence|].
     pose proof (H_clean_R (py_slice (events s) a b)) as HF. rewrite <- He in HF.
-    clear - HF He' Hee. revert j He' Hee. induction HF; intros [|j] H1 H2; cbn in *; try discriminate.
-    - congruence.
-    - eauto.
+    exact (Forall2_nth _ _ _ HF _ _ _ He' Hee).
   Qed.
 
   Lemma deepcopy_spec s s' : deepcopy s = Some s' ->
@@ -470,3 +476,25 @@ Section SimpleProofs.
     apply IH. now apply step_valid.
   Qed.
 End SimpleProofs.
+
+(* ------------------------------------------------------------------ *)
+(** * The unrepaired methods violate the property (F3, F4) *)
+
+(** F3: a 4-event sequence at steps 4..8; set_length(0, from_left=True) of the
+    unrepaired code keeps all four events while the step range becomes empty. *)
+Lemma set_length_exact_unfixed_refuted :
+  exists (s : st Z) n fl, Inv s /\ 0 <= n /\
+    let s' := base_set_length_unfixed s n fl in
+    len s' = 4 /\ stop s' - start s' = 0 /\ ~ Inv s'.
+Proof.
+  exists (mkst [1; 2; 3; 4] 4 8 16 4 0), 0, true. unfold Inv. cbn. repeat split; try lia; discriminate.
+Qed.
+
+(** F4: the unrepaired slice offset for s[-2:] of the same sequence lies
+    before the sequence's own start (the repaired one is start + 2). *)
+Lemma slice_offset_unfixed_refuted :
+  exists (s : st Z) a, Inv s /\
+    slice_start_unfixed s a < start s /\ start s + slice_lo (len s) a = 6.
+Proof.
+  exists (mkst [1; 2; 3; 4] 4 8 16 4 0), (Some (-2)). unfold Inv. cbn. repeat split; lia.
+Qed.
